@@ -128,6 +128,8 @@ def run(tier: str, seed: int) -> int:
         def show(cls, params, object=None):
             return list(cls.store[params["images"]])
 
+    # realistic state names as well: the memory-file name is "<state>.state", names ending in letters of that suffix must survive the mapping
+    REAL = ["customize", "connect", "launcha"]
     mem_subsets = [c for r in range(4) for c in itertools.combinations(NAMES, r)]
     img_subsets = subsets if tier == "thorough" else [c for r in range(4) for c in itertools.combinations(NAMES, r)]
     old_backend = ramfile.RamfileBackend.image_state_backend
@@ -175,6 +177,38 @@ def run(tier: str, seed: int) -> int:
                             rep.distinct.add(("ram", json.dumps(inp, sort_keys=True)))
                         if cells - c0 in (7, 200):
                             rep.sample({"call": "RamfileBackend._show", **inp, "expected": sorted(expected), "got": sorted(got)}, limit=8)
+        # the same product over realistic names (1-2 images; the memory files may also carry a near-miss name)
+        real_sub = [c for r in range(3) for c in itertools.combinations(REAL, r)]
+        for n in (1, 2):
+            imgs = [f"image{i + 1}" for i in range(n)]
+            for combo in itertools.product(real_sub, repeat=n):
+                assign = dict(zip(imgs, combo))
+                for mem in real_sub + [("launch",), ("customiz",)]:
+                    cells += 1
+                    ImgBackend.store = assign
+                    mock_os = mock.MagicMock()
+                    mock_os.listdir.return_value = [m + ".state" for m in mem] + ["image1", "x.states", "state"]
+                    mock_os.stat.return_value.st_size = 4096
+                    import os as real_os
+
+                    mock_os.path.join = real_os.path.join
+                    p = Params({"vms": "vm1", "images": " ".join(imgs), "swarm_pool": "/pool", "object_id": "vm1-x", "object_type": "vms"})
+                    expected = set(mem)
+                    for im in imgs:
+                        expected &= set(assign[im])
+                    inp = {"backend": "ramfile", "images": imgs, "states": {k: list(v) for k, v in assign.items()}, "memory_files": list(mem)}
+                    try:
+                        with mock.patch.object(ramfile, "os", mock_os):
+                            got = ramfile.RamfileBackend._show(p, None)
+                    except Exception as e:  # noqa: BLE001
+                        rep.violation(f"RamfileBackend._show raised {type(e).__name__}: {e} (expected {sorted(expected)})", inp,
+                                      {"backend": "ramfile", "kind": "exception", "exc": type(e).__name__, "names": "real"})
+                        continue
+                    rep.transitions += 1
+                    if set(got) != expected:
+                        rep.violation(f"RamfileBackend._show returned {sorted(got)} expected {sorted(expected)} (memory files {list(mem)})", inp,
+                                      {"backend": "ramfile", "kind": "wrong", "names": "real"})
+                    rep.distinct.add(("ram-real", json.dumps(inp, sort_keys=True)))
     finally:
         ramfile.RamfileBackend.image_state_backend = old_backend
     rep.sections["ramfile_cells"] = cells - c0
